@@ -772,6 +772,22 @@ func (e *Env) call(c *ast.CallExpr) Value {
 			v.T = NullT
 		}
 		return Value{T: Store(a.T, i.T, v.T)}
+	case "nilof":
+		// nilof("*Member"): the typed nil of a pointer/slice/interface type
+		lit, ok := args[0].(*ast.BasicLit)
+		if !ok {
+			e.fail("nilof needs a type string")
+		}
+		ts, _ := strconv.Unquote(lit.Value)
+		te, err := parser.ParseExpr(ts)
+		if err != nil {
+			e.fail("nilof: %v", err)
+		}
+		ty := e.lookupType(te)
+		if ty == nil {
+			e.fail("nilof: unknown type %s", ts)
+		}
+		return Value{T: x.zero(ty), Typ: ty}
 	case "arbitrary":
 		// arbitrary("(Array Ref Int)"): an unconstrained value of that sort
 		lit, ok := args[0].(*ast.BasicLit)
@@ -835,6 +851,9 @@ func (e *Env) call(c *ast.CallExpr) Value {
 		n.useCells = false
 		for i, a := range args {
 			n.vars[p.Params[i]] = e.eval(a)
+		}
+		if tp := x.w.typesPkg(p.Pkg); tp != nil {
+			n.pkg = tp
 		}
 		return n.EvalText(p.Body)
 	}
